@@ -165,7 +165,12 @@ func c40Handler(site string, kv ...int64) {
 	case "qm.append.enqueued", "qm.append.refused":
 		r.watcher.note(site)
 	case "qm.stop.soft":
-		r.stopper.park(site)
+		r.mu.Lock()
+		g := r.stopper
+		r.mu.Unlock()
+		if g != nil {
+			g.park(site)
+		}
 	case "qm.shard.dequeued", "qm.shard.exit", "qm.shard.timer":
 		r.mu.Lock()
 		g := r.shards[int(kv[1])]
@@ -369,7 +374,9 @@ func (r *c40Run) replay(t *testing.T) {
 			}
 		case "StopSoft":
 			stopping = true
+			r.mu.Lock()
 			r.stopper = c40NewGate()
+			r.mu.Unlock()
 			go func() { r.qm.shards.stop(); r.stopRet <- struct{}{} }()
 			if s, ok := r.stopper.wait(c40Wait); !ok || s != "qm.stop.soft" {
 				r.fail("infra", "", where+": stop did not reach the soft-shutdown site")
@@ -442,9 +449,12 @@ func (r *c40Run) replay(t *testing.T) {
 		g.free()
 	}
 	r.mu.Unlock()
+	r.mu.Lock()
 	if r.stopper != nil {
 		r.stopper.free()
 	}
+	r.stopper = nil
+	r.mu.Unlock()
 	quit := make(chan struct{})
 	var wg sync.WaitGroup
 	wg.Add(1)
